@@ -115,6 +115,16 @@ mod mul_decimal_tests {
     }
 }
 
+// Multiplication of coefficients. Overflow must be signaled independent of
+// the build profile (i. e. also without overflow checks).
+#[inline(always)]
+fn mul(x: i128, y: i128) -> i128 {
+    match x.checked_mul(y) {
+        Some(res) => res,
+        None => panic!("{}", DecimalError::InternalOverflow),
+    }
+}
+
 macro_rules! impl_mul_decimal_and_int {
     () => {
         impl_mul_decimal_and_int!(u8, i8, u16, i16, u32, i32, u64, i64, i128);
@@ -127,7 +137,7 @@ macro_rules! impl_mul_decimal_and_int {
             #[inline(always)]
             fn mul(self, rhs: $t) -> Self::Output {
                 Self::Output{
-                    coeff: self.coeff * i128::from(rhs),
+                    coeff: mul(self.coeff, i128::from(rhs)),
                     n_frac_digits: self.n_frac_digits,
                 }
             }
@@ -139,7 +149,7 @@ macro_rules! impl_mul_decimal_and_int {
             #[inline(always)]
             fn mul(self, rhs: Decimal) -> Self::Output {
                 Self::Output{
-                    coeff: i128::from(self) * rhs.coeff,
+                    coeff: mul(i128::from(self), rhs.coeff),
                     n_frac_digits: rhs.n_frac_digits,
                 }
             }
